@@ -1,20 +1,18 @@
 /-
-`Sched3Crash` — `Sched2` extended with the private run database AS COMMITTED, kept apart from the memory of the
-scheduler process, and with abrupt death + restart from that database (property C20):
-
-* `Db` = the committed image of the tables a restart reads: `task_states` ⋈ `task_outputs` (`rows`), the
-  `task_pool` / `task_prerequisites` / `task_action_timers` snapshot written by `put_task_pool` (`pool`),
-  `abs_outputs`, `tasks_to_hold`, the `workflow_params` rows holdcp / stopcp / is_paused / stop_task;
-* `DbQ` = the database operations queued in memory (`db_inserts_map` / `db_updates_map` / `db_deletes_map`);
-* `commit` = `WorkflowDatabaseManager.process_queued_ops` (one transaction: everything queued becomes visible at
-  once), called exactly where the code calls it: `TaskPool.remove`, after recording an absolute output, after
-  event-driven suicides, at the end of the main loop, at start-up, at shutdown;
-* `spawn_task` reads its history from the COMMITTED rows (`_get_task_history`, `_load_historical_outputs` are
-  SELECTs on the private database: queued operations are invisible to them);
-* ops `crash` (the process dies between two ops), `loopCrash k` (it dies inside a main loop at its k-th commit
-  boundary; a death inside the transaction leaves the same database, C21) and `pollres` (one line of the result of
-  the restart poll); `crashRestart` = a new scheduler started from `Db` alone.
-A copy of `Sched2`, so that `Sched2` and its proofs stay frozen.  Original header of `Sched2` / v1 follows.
+`Sched3Fut` — `Sched2` extended with FUTURE TRIGGERS (`a[+P1] => b`) and what the code hangs on them (checks C04F, C07F):
+* `TaskDef.max_future_prereq_offset` is a lazily raised attribute of the task definition: every construction of a
+  `TaskProxy` (spawn_task, restart load, the ghost proxies the data store builds for the n=1 window of a task added
+  to the pool, the temporary proxy of a job message without a pooled task) raises it to the largest future offset
+  of the prerequisites of that instance (`Dependency.get_prerequisite`): state field `tdefOff`, primitive `touch`;
+* the cached `TaskPool.max_future_offset` (`maxFut`) with its update sites: `add_to_pool` and `remove` call
+  `set_max_future_offset` only when the task definition of the added / removed proxy has an offset, and a changed
+  value forces `compute_runahead(force=True)` at once (inside spawn_on_output, release_runahead_tasks, restart load);
+* `compute_runahead`: the limit is extended by `maxFut` and then capped at the stop point;
+* `spawn_task`: an instance at or before the stop point with a prerequisite atom beyond the stop point is not
+  spawned (the proxy is constructed, so the task definition is touched);
+* the pool is kept in `get_tasks()` order (cycle buckets) and graph children in their real iteration order, because
+  forced recomputations in the middle of a release / spawn sequence make the order observable.
+A copy of `Sched2`, so that v1 / v2 and their proofs stay frozen.  Header of `Sched2` follows.
 
 `Sched2` — `Sched` (v1) extended with holds, stop modes / stop point / stop task, pause and
 clean restart (commands applied between main loops).  A copy, so that v1 and its proofs stay frozen.
@@ -39,7 +37,7 @@ Not modelled in this stage (never generated): commands, holds, several flows, fl
 suicide triggers, xtriggers, clock expiry, queue limits, future-offset runahead extension,
 stop points, Cylc-7 compatibility mode.  Core Lean only.
 -/
-namespace CylcModel.Sched3Crash
+namespace CylcModel.Sched3Fut
 
 /-! ### Static instance graph -/
 
@@ -101,6 +99,10 @@ structure InstDef where
   sui : List Pre
   children : List (String × List Child)     -- keyed by output message
   nextParentless : Option Int
+  futOff : Option Int := none               -- largest future offset among the prerequisite atoms (incl. suicide) of the instance:
+                                            -- what constructing a TaskProxy here contributes to `tdef.max_future_prereq_offset`
+  ghosts : List (String × Int) := []        -- graph children / parents (at or before the final point) for which the data store
+                                            -- builds ghost task proxies when this instance is added to the pool (n = 1 window)
   deriving Repr, Inhabited
 
 structure OutDef where
@@ -128,14 +130,6 @@ structure Graph where
   seqs : List (List Int)                    -- valid points of every sequence, ascending
   stopPoint : Option Int := none            -- `TaskPool.stop_point` (the final point unless set otherwise)
   cfgStop : Option Int := none              -- `[scheduling]stop after cycle point` of flow.cylc
-  /-- behaviour flags (probed from the live code, `Generated/CrashFlags.lean`): the early commits of `TaskPool` —
-  in `remove`, after recording an absolute output, after event-driven suicides — also write the task pool table
-  (true: repaired, the tables a restart joins describe the same moment at every commit; false: code as found) -/
-  poolAtRemove : Bool := false
-  poolAtAbs : Bool := false
-  poolAtSuicide : Bool := false
-  /-- ... and so does the commit at the end of start-up (`Scheduler.configure`) -/
-  poolAtStart : Bool := false
   deriving Repr, Inhabited
 
 def Graph.task? (g : Graph) (name : String) : Option TaskDefn := g.tasks.find? (·.name == name)
@@ -164,56 +158,12 @@ structure Proxy where
   timers : Bool := false                    -- `try_timers` exist (created at the first preparation, saved in the DB)
   deriving Repr, Inhabited
 
-/-- one row of `task_states` together with the `task_outputs` row of the same key (single flow `[1]`) -/
-structure Row where
+structure Hist where                        -- a removed instance as recorded in the DB
   pt : Int
   name : String
   status : Status
   submitNum : Nat
-  outs : List String := []                  -- completed output messages (`task_outputs.outputs`)
-  deriving Repr, Inhabited
-
-/-- the UPDATE statement templates used on `task_states` (distinguished by their SET columns) and `task_outputs` -/
-inductive UpdKind where
-  | stateTransient                          -- `put_update_task_state` of a removed (transient) proxy: status only
-  | pool                                    -- the `task_states` update of `put_task_pool`: status + submit number
-  | outputs                                 -- `put_update_task_outputs`
-  deriving Repr, DecidableEq, Inhabited
-
-/-- a queued UPDATE of the row (point, name) -/
-structure Upd where
-  kind : UpdKind
-  pt : Int
-  name : String
-  status : Status
-  submitNum : Nat
-  outs : List String := []
-  deriving Repr, Inhabited
-
-/-- the private database as committed: what survives the death of the scheduler process -/
-structure Db where
-  rows : List Row := []                       -- `task_states` ⋈ `task_outputs`
-  pool : List Proxy := []                     -- `task_pool` + `task_prerequisites` + `task_action_timers` as written by
-                                              -- the latest `put_task_pool` (read: status, held, flows, pre, try state)
-  abs : List Atom := []                       -- `abs_outputs`
-  hold : List (String × Int) := []            -- `tasks_to_hold`
-  holdCp : Option Int := none                 -- `workflow_params.holdcp`
-  stopCp : Option Int := none                 -- `workflow_params.stopcp`
-  paused : Bool := false                      -- `workflow_params.is_paused`
-  stopTask : Option (Int × String) := none    -- `workflow_params.stop_task`
-  deriving Repr, Inhabited
-
-/-- database operations queued in the memory of the scheduler process (lost when it dies) -/
-structure DbQ where
-  ins : List Row := []                        -- INSERT OR REPLACE of `task_states` + `task_outputs` rows
-  upd : List Upd := []                        -- UPDATEs of those rows
-  pool : Option (List Proxy) := none          -- `put_task_pool`: delete everything, insert the pool
-  abs : List Atom := []                       -- `put_insert_abs_output`
-  hold : Option (List (String × Int)) := none -- `put_tasks_to_hold`: replace the table
-  holdCp : Option (Option Int) := none
-  stopCp : Option (Option Int) := none
-  paused : Option Bool := none
-  stopTask : Option (Option (Int × String)) := none
+  done : List String := []                  -- completed output messages (`task_outputs` table)
   deriving Repr, Inhabited
 
 structure Msg where
@@ -224,13 +174,10 @@ structure Msg where
   deriving Repr, Inhabited
 
 structure State where
-  pool : List Proxy := []
-  cdb : Db := {}                              -- the private database as committed
-  q : DbQ := {}                               -- queued database operations
-  fuse : Option Nat := none                   -- `some k`: the process dies at its k-th commit boundary from now
-  dead : Bool := false                        -- the process has died (nothing it does from here on exists)
-  ncommit : Nat := 0                          -- commit boundaries passed in the current op
-  crashed : Bool := false                     -- the current op ended with a death + restart
+  pool : List Proxy := []                   -- in `get_tasks()` order
+  tdefOff : List (String × Int) := []       -- `tdef.max_future_prereq_offset` of every task definition that has one
+  maxFut : Option Int := none               -- `TaskPool.max_future_offset`
+  hist : List Hist := []
   rhLimit : Option Int := none
   prevBase : Option Int := none
   prevSeqPts : List Int := []
@@ -248,6 +195,7 @@ structure State where
   stopTask : Option (Int × String) := none    -- `stop_task_id`
   stopTaskFinished : Bool := false
   paused : Bool := false
+  dbStopCp : Option Int := none               -- workflow_params `stopcp` in the DB
   restartWait : Bool := false                 -- `is_restart_timeout_wait`
   db : Option (List Proxy) := none            -- `task_pool` DB table as committed by the latest main loop
   ghosts : List Proxy := []                   -- proxies removed during the current op (`transient` objects
@@ -280,9 +228,7 @@ def Proxy.prereqsSatisfied (x : Proxy) : Bool := x.pre.all Pre.isSatisfied
 def Proxy.satisfyMe (x : Proxy) (a : Atom) : Proxy :=
   { x with pre := x.pre.map (·.satisfy a), sui := x.sui.map (·.satisfy a) }
 
-/-- `trigger_to_completion_variable`: `-` → `_` (character-wise, so that the kernel can evaluate it) -/
-def compVar (trigger : String) : String :=
-  String.ofList (trigger.toList.map fun c => if c == '-' then '_' else c)
+def compVar (trigger : String) : String := trigger.replace "-" "_"
 
 /-- `TaskOutputs.is_complete` -/
 def isComplete (t : TaskDefn) (done : List String) : Bool :=
@@ -299,165 +245,35 @@ def State.get? (s : State) (p : Int) (n : String) : Option Proxy :=
 def State.put (s : State) (x : Proxy) : State :=
   { s with pool := s.pool.map fun y => if y.pt == x.pt && y.name == x.name then x else y }
 
-/-- `add_to_pool`: no-op when the key is present -/
-def State.add (s : State) (x : Proxy) : State :=
-  if (s.get? x.pt x.name).isSome then s else { s with pool := s.pool ++ [x] }
+/-! ### Future offsets, runahead limit, `add_to_pool` -/
 
-/-- `TaskState.reset` for the flags used here; sets `upd` when anything changed -/
-def Proxy.reset (x : Proxy) (status : Option Status := none) (queued : Option Bool := none)
-    (runahead : Option Bool := none) (held : Option Bool := none) : Proxy :=
-  let y := { x with status := status.getD x.status, queued := queued.getD x.queued,
-                    runahead := runahead.getD x.runahead, held := held.getD x.held }
-  if y.status == x.status && y.queued == x.queued && y.runahead == x.runahead && y.held == x.held then x
-  else { y with upd := true }
+/-- position of a new proxy in `get_tasks()` order: `active_tasks` is a dict of cycle buckets (in creation
+order; an emptied bucket is deleted) of dicts of proxies (insertion order), so the flat list keeps the proxies
+of one point together: a new proxy goes behind the last proxy of its point, or at the very end (new bucket) -/
+def insertBucket (x : Proxy) : List Proxy → List Proxy
+  | [] => [x]
+  | y :: ys =>
+    if ys.any (·.pt == x.pt) then y :: insertBucket x ys
+    else if y.pt == x.pt then y :: x :: ys
+    else y :: insertBucket x ys
 
-/-- `can_be_spawned` + proxy construction; `none` when out of bounds / off sequence -/
-def mkProxy (g : Graph) (name : String) (p : Int) : Option Proxy := do
-  let t ← g.task? name
-  if p < g.icp || p > g.fcp then none
-  let d ← t.inst? p
-  pure { pt := p, name := name, pre := d.pre, sui := d.sui }
+/-- `tdef.max_future_prereq_offset` of task `n` (`none` = `None`) -/
+def State.offOf (s : State) (n : String) : Option Int := (s.tdefOff.find? (·.1 == n)).map (·.2)
 
-/-! ### The private database: queued operations and the commit -/
+/-- what constructing a `TaskProxy` of `n` at `p` contributes (`none`: not an instance / no future prerequisite) -/
+def instOff (g : Graph) (n : String) (p : Int) : Option Int :=
+  ((g.task? n).bind (·.inst? p)).bind (·.futOff)
 
-def Row.isKey (r : Row) (p : Int) (n : String) : Bool := r.pt == p && r.name == n
-
-/-- completed outputs of a proxy as stored in `task_outputs` (definition order) -/
-def outsOf (g : Graph) (x : Proxy) : List String :=
-  match g.task? x.name with
-  | some t => (t.outputs.filter fun o => x.done.contains o.message).map (·.message)
-  | none => []
-
-/-- `db_add_new_flow_rows`: INSERT OR REPLACE of the `task_states` and `task_outputs` rows of the proxy (queued) -/
-def dbInsert (s : State) (x : Proxy) : State :=
-  { s with q := { s.q with ins := s.q.ins ++
-      [{ pt := x.pt, name := x.name, status := x.status, submitNum := x.submitNum, outs := [] }] } }
-
-def dbQueue (s : State) (kind : UpdKind) (x : Proxy) (outs : List String := []) : State :=
-  { s with q := { s.q with upd := s.q.upd ++
-      [{ kind := kind, pt := x.pt, name := x.name, status := x.status, submitNum := x.submitNum, outs := outs }] } }
-
-/-- `put_update_task_outputs` -/
-def dbUpdateOutputs (g : Graph) (s : State) (x : Proxy) : State := dbQueue s .outputs x (outsOf g x)
-
-/-- `put_tasks_to_hold`: the queued replacement of the table is itself replaced -/
-def dbPutHold (s : State) : State := { s with q := { s.q with hold := some s.tasksToHold } }
-
-def Upd.apply (u : Upd) (r : Row) : Row :=
-  if !r.isKey u.pt u.name then r else
-  match u.kind with
-  | .stateTransient => { r with status := u.status }
-  | .pool => { r with status := u.status, submitNum := u.submitNum }
-  | .outputs => { r with outs := u.outs }
-
-def insRow (rows : List Row) (r : Row) : List Row := (rows.filter fun q => !q.isKey r.pt r.name) ++ [r]
-
-def updKinds (upd : List Upd) : List UpdKind :=
-  upd.foldl (fun acc u => if acc.contains u.kind then acc else acc ++ [u.kind]) []
-
-/-- `execute_queued_items` on `task_states` / `task_outputs`: all INSERTs (in order), then the UPDATEs grouped by
-statement template (groups in order of first use) -/
-def flushRows (rows : List Row) (ins : List Row) (upd : List Upd) : List Row :=
-  (updKinds upd).foldl (fun (rows : List Row) k =>
-      (upd.filter (·.kind == k)).foldl (fun (rows : List Row) u => rows.map u.apply) rows)
-    (ins.foldl insRow rows)
-
-def addAbs (l : List Atom) (a : Atom) : List Atom := if l.contains a then l else l ++ [a]
-
-/-- one transaction: everything queued becomes part of the committed database -/
-def applyQ (d : Db) (q : DbQ) : Db :=
-  { rows := flushRows d.rows q.ins q.upd,
-    pool := q.pool.getD d.pool,
-    abs := q.abs.foldl addAbs d.abs,
-    hold := q.hold.getD d.hold,
-    holdCp := q.holdCp.getD d.holdCp,
-    stopCp := q.stopCp.getD d.stopCp,
-    paused := q.paused.getD d.paused,
-    stopTask := q.stopTask.getD d.stopTask }
-
-/-- `WorkflowDatabaseManager.process_queued_ops`: a commit boundary.  With a burning fuse the process dies at the
-boundary the fuse points to: that commit and everything after it never happens. -/
-def commit (s : State) : State :=
-  if s.dead then s
-  else match s.fuse with
-    | some 0 => { s with dead := true }
-    | some (k + 1) => { s with cdb := applyQ s.cdb s.q, q := {}, fuse := some k, ncommit := s.ncommit + 1 }
-    | none => { s with cdb := applyQ s.cdb s.q, q := {}, ncommit := s.ncommit + 1 }
-
-/-- `put_task_pool`: the pool table (with prerequisites and timers) is replaced by the current pool, and the
-`task_states` row of every proxy whose state changed since the last call is updated (all queued) -/
-def putTaskPool (s : State) : State :=
-  let s1 := s.pool.foldl (fun st x => if x.upd then dbQueue st .pool x else st) s
-  { s1 with q := { s1.q with pool := some s1.pool } }
-
-/-- an early commit of `TaskPool`: with the behaviour flag up the task pool table is written along -/
-def commitP (withPool : Bool) (s : State) : State :=
-  if withPool then commit (putTaskPool s) else commit s
-
-/-- `_get_task_history` / `select_task_outputs`: the COMMITTED row of the instance -/
-def histOf (s : State) (p : Int) (n : String) : Option Row := s.cdb.rows.find? fun r => r.isKey p n
-
-/-- the proxy `spawn_task` would put into the pool given the history row: `none` = not spawned -/
-def revive (g : Graph) (name : String) (x : Proxy) : Option Row → Option Proxy
-  | none => some x
-  | some h =>
-    if h.outs.isEmpty then none                 -- "task was removed" (suicide leaves no outputs)
-    else
-      let y := { x with status := h.status, submitNum := h.submitNum, done := h.outs }
-      if h.status.isFinal then
-        match g.task? name with
-        | some t => if isComplete t h.outs then none else some y    -- finished and complete: not re-run
-        | none => none
-      else some y
-
-/-- `spawn_task` (single flow): consult the DB history of the instance, then build the proxy;
-a new proxy is held when a hold was requested for it earlier or it lies beyond the hold point -/
-def spawnTask (g : Graph) (s : State) (name : String) (p : Int) : State × Option Proxy :=
-  let hist := histOf s p name
-  if hist.isNone && p < g.start then (s, none)       -- warm start: pre-start instances count as run
-  else match mkProxy g name p with
-    | none => (s, none)
-    | some x =>
-      -- `_load_historical_outputs`: no committed row: new rows are queued
-      let s := if hist.isNone then dbInsert s x else s
-      match revive g name x hist with
-      | none => (s, none)
-      | some y =>
-        -- hold (requested earlier, or beyond the hold point)
-        let (s, y) :=
-          if s.tasksToHold.contains (name, p) then (dbPutHold s, y.reset (held := some true))
-          else match s.holdPoint with
-            | some hp => if p > hp then
-                (dbPutHold { s with tasksToHold := s.tasksToHold ++ [(name, p)] }, y.reset (held := some true))
-              else (s, y)
-            | none => (s, y)
-        -- satisfy absolute triggers from the record of completed absolute outputs
-        let y := match g.task? name with
-          | some t => if t.hasAbs && !y.prereqsSatisfied then s.absDone.foldl (fun z a => z.satisfyMe a) y else y
-          | none => y
-        -- a task that has not run before gets its rows (again)
-        (if hist.isNone then dbInsert s y else s, some y)
-
-/-- `get_or_spawn_task` + `add_to_pool` as used by parentless spawning -/
-def spawnAndAdd (g : Graph) (s : State) (name : String) (p : Int) : State :=
-  if (s.get? p name).isSome then s            -- merge_flows: same flow, nothing to do
-  else match spawnTask g s name p with
-    | (s, some x) => s.add x
-    | (s, none) => s
-
-def nextParentless (g : Graph) (x : Proxy) : Option Int := do
-  let t ← g.task? x.name
-  let d ← t.inst? x.pt
-  d.nextParentless
-
-/-- `spawn_next_parentless` -/
-def spawnNextParentless (g : Graph) (s : State) (x : Proxy) : State :=
-  if x.flows.isEmpty || x.pt < g.start then s
-  else match nextParentless g x with
-    | some np => spawnAndAdd g s x.name np
-    | none => s
-
-/-! ### Runahead -/
+/-- construction of a `TaskProxy` (`TaskState._add_prerequisites` → `Dependency.get_prerequisite`): the attribute
+of the task definition is raised to the largest future offset of the instance -/
+def touch (g : Graph) (s : State) (n : String) (p : Int) : State :=
+  match instOff g n p with
+  | none => s
+  | some k =>
+    match s.offOf n with
+    | none => { s with tdefOff := s.tdefOff ++ [(n, k)] }
+    | some k0 =>
+      if k > k0 then { s with tdefOff := s.tdefOff.map fun e => if e.1 == n then (n, k) else e } else s
 
 def insertSorted (x : Int) : List Int → List Int
   | [] => [x]
@@ -469,7 +285,9 @@ def minOf : List Int → Option Int
   | [] => none
   | x :: xs => some (xs.foldl min x)
 
-/-- `compute_runahead` (count-cycles limit `Pn`, no future offsets, no stop point) -/
+/-- `compute_runahead` (count-cycles limit `Pn`): base point = earliest pooled point; unforced: early return when the
+base point did not move or the limit sits at the stop point; the limit is extended by the cached maximum future
+offset and then capped at the stop point -/
 def computeRunahead (g : Graph) (s : State) (force : Bool := false) : State :=
   let base : Option Int :=
     if s.pool.isEmpty then minOf (g.seqs.filterMap fun q => q.find? (· ≥ g.start))
@@ -488,10 +306,119 @@ def computeRunahead (g : Graph) (s : State) (force : Bool := false) : State :=
         match (pts.take (g.runahead + 1)).getLast? with
         | none => b
         | some l => l
-      let limit : Int := match s.stopPoint with
-        | some sp => min sp limit0
+      let limit1 : Int := match s.maxFut with
+        | some k => limit0 + k
         | none => limit0
+      let limit : Int := match s.stopPoint with
+        | some sp => if limit1 > sp then sp else limit1
+        | none => limit1
       { s with prevSeqPts := pts, prevBase := some b, rhLimit := some limit }
+
+/-- the largest `tdef.max_future_prereq_offset` among the pooled proxies -/
+def poolMaxOff (s : State) : Option Int :=
+  s.pool.foldl (fun acc x =>
+    match s.offOf x.name with
+    | none => acc
+    | some k => match acc with
+      | none => some k
+      | some a => if k > a then some k else acc) none
+
+/-- `set_max_future_offset`: recompute the cached maximum; a changed value forces a recomputation of the limit -/
+def setMaxFut (g : Graph) (s : State) : State :=
+  let m := poolMaxOff s
+  let s' := { s with maxFut := m }
+  if m != s.maxFut then computeRunahead g s' true else s'
+
+/-- `add_to_pool`: no-op when the key is present; the data store builds ghost proxies for the graph neighbours
+(`create_data_store_elements` → `increment_graph_window`); `set_max_future_offset` only when the task definition of
+the new proxy has a future offset -/
+def State.add (g : Graph) (s : State) (x : Proxy) : State :=
+  if (s.get? x.pt x.name).isSome then s else
+  let s := { s with pool := insertBucket x s.pool }
+  let ghosts := match (g.task? x.name).bind (·.inst? x.pt) with
+    | some d => d.ghosts
+    | none => []
+  let s := ghosts.foldl (fun st k => touch g st k.1 k.2) s
+  if (s.offOf x.name).isSome then setMaxFut g s else s
+
+/-- `TaskState.reset` for the flags used here; sets `upd` when anything changed -/
+def Proxy.reset (x : Proxy) (status : Option Status := none) (queued : Option Bool := none)
+    (runahead : Option Bool := none) (held : Option Bool := none) : Proxy :=
+  let y := { x with status := status.getD x.status, queued := queued.getD x.queued,
+                    runahead := runahead.getD x.runahead, held := held.getD x.held }
+  if y.status == x.status && y.queued == x.queued && y.runahead == x.runahead && y.held == x.held then x
+  else { y with upd := true }
+
+/-- `can_be_spawned` + proxy construction; `none` when out of bounds / off sequence -/
+def mkProxy (g : Graph) (name : String) (p : Int) : Option Proxy := do
+  let t ← g.task? name
+  if p < g.icp || p > g.fcp then none
+  let d ← t.inst? p
+  pure { pt := p, name := name, pre := d.pre, sui := d.sui }
+
+/-- `spawn_task` (single flow): consult the DB history of the instance, then build the proxy;
+a new proxy is held when a hold was requested for it earlier or it lies beyond the hold point -/
+def spawnTask (g : Graph) (s : State) (name : String) (p : Int) : State × Option Proxy :=
+  let hist := (s.hist.filter fun h => h.pt == p && h.name == name).getLast?
+  if hist.isNone && p < g.start then (s, none)       -- warm start: pre-start instances count as run
+  else match mkProxy g name p with
+    | none => (s, none)
+    | some x =>
+      let s := touch g s name p                        -- the TaskProxy has been constructed
+      let revived : Option Proxy :=
+        match hist with
+        | none => some x
+        | some h =>
+          if h.done.isEmpty then none                 -- "task was removed" (suicide leaves no outputs)
+          else
+            let y := { x with status := h.status, submitNum := h.submitNum, done := h.done }
+            if h.status.isFinal then
+              match g.task? name with
+              | some t => if isComplete t h.done then none else some y    -- finished and complete: not re-run
+              | none => none
+            else some y
+      match revived with
+      | none => (s, none)
+      | some y =>
+        -- hold (requested earlier, or beyond the hold point)
+        let (s, y) :=
+          if s.tasksToHold.contains (name, p) then (s, y.reset (held := some true))
+          else match s.holdPoint with
+            | some hp => if p > hp then
+                ({ s with tasksToHold := s.tasksToHold ++ [(name, p)] }, y.reset (held := some true))
+              else (s, y)
+            | none => (s, y)
+        -- not added to the pool if it depends on a task beyond the stop point ("foo[+P1] & bar => baz")
+        let beyond : Bool := match s.stopPoint with
+          | some sp => p ≤ sp && y.pre.any fun pr => pr.atoms.any fun a => a.1.pt > sp
+          | none => false
+        if beyond then (s, none) else
+        -- satisfy absolute triggers from the record of completed absolute outputs
+        let y := match g.task? name with
+          | some t => if t.hasAbs && !y.prereqsSatisfied then s.absDone.foldl (fun z a => z.satisfyMe a) y else y
+          | none => y
+        (s, some y)
+
+/-- `get_or_spawn_task` + `add_to_pool` as used by parentless spawning -/
+def spawnAndAdd (g : Graph) (s : State) (name : String) (p : Int) : State :=
+  if (s.get? p name).isSome then s            -- merge_flows: same flow, nothing to do
+  else match spawnTask g s name p with
+    | (s, some x) => State.add g s x
+    | (s, none) => s
+
+def nextParentless (g : Graph) (x : Proxy) : Option Int := do
+  let t ← g.task? x.name
+  let d ← t.inst? x.pt
+  d.nextParentless
+
+/-- `spawn_next_parentless` -/
+def spawnNextParentless (g : Graph) (s : State) (x : Proxy) : State :=
+  if x.flows.isEmpty || x.pt < g.start then s
+  else match nextParentless g x with
+    | some np => spawnAndAdd g s x.name np
+    | none => s
+
+/-! ### Runahead release -/
 
 /-- `release_runahead_tasks`; returns whether anything was released -/
 def releaseRunahead (g : Graph) (s : State) : State × Bool :=
@@ -523,8 +450,8 @@ def queueIfReady (s : State) (x : Proxy) : State :=
 /-- `hold_active_task` on a pooled proxy -/
 def holdActive (s : State) (x : Proxy) : State :=
   let s := s.put (x.reset (held := some true))
-  dbPutHold (if s.tasksToHold.contains (x.name, x.pt) then s
-    else { s with tasksToHold := s.tasksToHold ++ [(x.name, x.pt)] })
+  if s.tasksToHold.contains (x.name, x.pt) then s
+  else { s with tasksToHold := s.tasksToHold ++ [(x.name, x.pt)] }
 
 /-- `release_held_active_task` on a pooled proxy -/
 def releaseHeldActive (s : State) (x : Proxy) : State :=
@@ -534,7 +461,7 @@ def releaseHeldActive (s : State) (x : Proxy) : State :=
       let y := if !y.runahead && y.isReadyToRun then y.reset (queued := some true) else y
       s.put y
     else s
-  dbPutHold { s with tasksToHold := s.tasksToHold.filter (· != (x.name, x.pt)) }
+  { s with tasksToHold := s.tasksToHold.filter (· != (x.name, x.pt)) }
 
 /-- `load_from_point` -/
 def loadFromPoint (g : Graph) : State :=
@@ -567,9 +494,10 @@ def remove (g : Graph) (s : State) (x : Proxy) : State :=
   let x := (s.get? x.pt x.name).getD x
   let s := if !x.flows.isEmpty && x.runahead then spawnNextParentless g s x else s
   let s := { s with pool := s.pool.filter (fun y => !(y.pt == x.pt && y.name == x.name)),
+                    hist := s.hist ++ [⟨x.pt, x.name, x.status, x.submitNum, x.done⟩],
                     ghosts := s.ghosts ++ [x] }
-  -- the final `task_states` update of the (now transient) proxy, written to the DB before moving on
-  commitP g.poolAtRemove (dbQueue s .stateTransient x)
+  -- the cached maximum future offset is recomputed only if the task definition of the removed proxy has an offset
+  if (s.offOf x.name).isSome then setMaxFut g s else s
 
 /-- `remove_if_complete` -/
 def removeIfComplete (g : Graph) (s : State) (x : Proxy) : State :=
@@ -595,10 +523,7 @@ def spawnChild (g : Graph) (p : Int) (n out : String) (acc : State × List (Int 
     State × List (Int × String) :=
   let (st, sui) := acc
   let atom : Atom := ⟨p, n, out⟩
-  -- an absolute output is recorded and committed at once
-  let st := if c.isAbs then
-      commitP g.poolAtAbs { st with absDone := addAbs st.absDone atom, q := { st.q with abs := st.q.abs ++ [atom] } }
-    else st
+  let st := if c.isAbs && !st.absDone.contains atom then { st with absDone := st.absDone ++ [atom] } else st
   let inPool := (st.get? c.pt c.name).isSome
   let (st, child) : State × Option Proxy :=
     match st.get? c.pt c.name with
@@ -607,7 +532,7 @@ def spawnChild (g : Graph) (p : Int) (n out : String) (acc : State × List (Int 
   match child with
   | none => (st, sui)
   | some y =>
-    let st := if inPool then st else st.add (y.satisfyMe atom)
+    let st := if inPool then st else State.add g st (y.satisfyMe atom)
     let targets : List (Int × String) :=
       if c.isAbs then
         let others := (st.pool.filter fun z => z.name == c.name).map fun z => (z.pt, z.name)
@@ -630,7 +555,6 @@ def spawnOnOutput (g : Graph) (s : State) (p : Int) (n : String) (out : String) 
     let s := suicides.foldl (fun (st : State) k => match st.get? k.1 k.2 with
       | some z => remove g st z
       | none => st) s
-    let s := if suicides.isEmpty then s else commitP g.poolAtSuicide s     -- "update DB now in case of very quick respawn attempt"
     match s.get? p n with
     | some x' => removeIfComplete g s x'
     | none => s
@@ -664,11 +588,8 @@ def store (s : State) (x : Proxy) (transient : Bool) : State :=
     { s with ghosts := s.ghosts.map fun y => if y.pt == x.pt && y.name == x.name then x else y }
   else s.put x
 
-/-- `spawn_children`: the outputs row is rewritten (queued); transient objects do not spawn -/
+/-- `spawn_children`: transient objects do not spawn -/
 def spawnChildren (g : Graph) (s : State) (p : Int) (n : String) (out : String) (transient : Bool) : State :=
-  let s := match lookup s p n with
-    | some xt => dbUpdateOutputs g s xt.1
-    | none => s
   if transient then s else spawnOnOutput g s p n out
 
 /-- `process_message` for one (non-forced) message; returns the new state and whether a poll is
@@ -748,15 +669,18 @@ def groupMsgs (q : List Msg) : List ((Int × String) × List Msg) :=
 def processQueue (g : Graph) (s : State) : State :=
   let groups := groupMsgs s.queue
   let s := { s with queue := [] }
-  groups.foldl (fun (st : State) grp =>
+  let r := groups.foldl (fun (acc : State × List (Int × String)) grp =>
+    let st := acc.1
     let (p, n) := grp.1
     match st.get? p n with
-    | none => st                                   -- no proxy: job-only processing
+    | none => (st, acc.2 ++ grp.2.map fun _ => (p, n))      -- no proxy: job-only processing, after all groups
     | some _ =>
       let (st, poll) := grp.2.foldl (fun (acc : State × Bool) m =>
           let (st', pl) := processMessage g 4 acc.1 p n .received m.submitNum m.text
           (st', acc.2 || pl)) (st, false)
-      if poll then { st with polls := st.polls ++ [(p, n)] } else st) s
+      (if poll then { st with polls := st.polls ++ [(p, n)] } else st, acc.2)) (s, [])
+  -- `process_job_message` builds a temporary TaskProxy for every message without a pooled task
+  r.2.foldl (fun st k => touch g st k.2 k.1) r.1
 
 /-! ### Stall and shutdown -/
 
@@ -783,7 +707,7 @@ def checkAutoShutdown (g : Graph) (s : State) : State × Bool :=
   if s.stalled then (s, false)
   else if s.pool.any (fun x => x.status == .preparing || x.status == .submitted ||
       x.status == .running || (x.status == .waiting && !x.runahead)) then (s, false)
-  else ({ s with q := { s.q with stopCp := some none } }, true)      -- the stop point is forgotten once reached
+  else ({ s with dbStopCp := none }, true)      -- the stop point is forgotten once reached
 
 /-! ### Operations -/
 
@@ -801,13 +725,9 @@ inductive Op where
   | pause
   | resume
   | restart
-  | crash                                  -- the scheduler process dies between two ops; restart from the database
-  | loopCrash (k : Nat)                    -- a main loop; the process dies at its k-th commit boundary; restart
-  | pollres (pt : Int) (name : String) (sn : Nat) (text : String)   -- one line of a jobs-poll result
   deriving Repr
 
-def clearOp (s : State) : State :=
-  { s with launched := [], polls := [], ghosts := [], db := none, ncommit := 0, crashed := false }
+def clearOp (s : State) : State := { s with launched := [], polls := [], ghosts := [], db := none }
 
 /-- the queue-if-ready sweep over waiting, unqueued, released proxies -/
 def sweepQueue (s : State) : State :=
@@ -820,17 +740,14 @@ def sweepQueue (s : State) : State :=
       else st
     | none => st) s
 
-/-- end of the main loop: `put_task_pool`, updated flags, DB commit, stall check -/
+/-- end of the main loop: updated flags, DB commit of the task pool, stall check -/
 def finishLoop (g : Graph) (s : State) : State :=
   let hasUpd := s.schedUpd || s.pool.any (·.upd)
   let s := if s.pool.any (·.upd) then { s with restartWait := false } else s
-  -- `update_data_structure` runs when anything was updated or the data store has pending deltas (any change of the
-  -- pool produces some): the pool table is rewritten whenever it could differ
-  let s := putTaskPool s
   let s := if hasUpd then
       { s with stalled := false, schedUpd := false, pool := s.pool.map fun x => { x with upd := false } }
     else s
-  let s := commit s                            -- process_workflow_db_queue
+  let s := { s with db := some s.pool }      -- put_task_pool + process_queued_ops
   if !hasUpd && s.stopMode.isNone then checkStalled g s else s
 
 /-- `TaskPool.can_stop` -/
@@ -844,7 +761,7 @@ def canStop (s : State) : Bool :=
 /-- `stop_task_done` -/
 def stopTaskDone (s : State) : State × Bool :=
   if s.stopTask.isSome && s.stopTaskFinished then
-    ({ s with stopTask := none, stopTaskFinished := false, q := { s.q with stopTask := some none } }, true)
+    ({ s with stopTask := none, stopTaskFinished := false }, true)
   else (s, false)
 
 /-- one iteration of `Scheduler._main_loop` -/
@@ -870,7 +787,7 @@ def mainLoop (g : Graph) (s : State) : State :=
 /-- `set_stop_point` -/
 def setStopPoint (s : State) (p : Int) : State :=
   if s.stopPoint == some p then s else
-  let s := { s with stopPoint := some p, q := { s.q with stopCp := some (some p) } }
+  let s := { s with stopPoint := some p, dbStopCp := some p }
   match s.rhLimit with
   | some l =>
     if l > p then
@@ -883,108 +800,61 @@ def setStopPoint (s : State) (p : Int) : State :=
 /-- `set_hold_point` -/
 def setHoldPoint (s : State) (p : Int) : State :=
   let s := { s with holdPoint := some p }
-  let s := s.pool.foldl (fun st x => if x.pt > p then
+  s.pool.foldl (fun st x => if x.pt > p then
       match st.get? x.pt x.name with | some y => holdActive st y | none => st
     else st) s
-  { s with q := { s.q with holdCp := some (some p) } }
 
 /-- `hold_tasks` (ids are valid instances: pooled ones are held, future ones recorded) -/
 def holdTasks (s : State) (ids : List (Int × String)) : State :=
-  dbPutHold (ids.foldl (fun st k => match st.get? k.1 k.2 with
+  ids.foldl (fun st k => match st.get? k.1 k.2 with
     | some y => holdActive st y
     | none => if st.tasksToHold.contains (k.2, k.1) then st
-              else { st with tasksToHold := st.tasksToHold ++ [(k.2, k.1)] }) s)
+              else { st with tasksToHold := st.tasksToHold ++ [(k.2, k.1)] }) s
 
 /-- `release_held_tasks`: only ids currently in `tasks_to_hold` are matched -/
 def releaseTasks (s : State) (ids : List (Int × String)) : State :=
-  dbPutHold (ids.foldl (fun st k =>
+  ids.foldl (fun st k =>
     if !st.tasksToHold.contains (k.2, k.1) then st else
     match st.get? k.1 k.2 with
     | some y => releaseHeldActive st y
-    | none => { st with tasksToHold := st.tasksToHold.filter (· != (k.2, k.1)) }) s)
+    | none => { st with tasksToHold := st.tasksToHold.filter (· != (k.2, k.1)) }) s
 
 /-- `release_hold_point` -/
 def releaseHoldPoint (s : State) : State :=
   let s := { s with holdPoint := none }
   let s := s.pool.foldl (fun st x => match st.get? x.pt x.name with
     | some y => releaseHeldActive st y | none => st) s
-  let s := dbPutHold { s with tasksToHold := [] }
-  { s with q := { s.q with holdCp := some none } }
+  { s with tasksToHold := [] }
 
-/-- one row of `task_pool` ⋈ `task_states` ⋈ `task_outputs` as loaded by `load_db_task_pool_for_restart`: the proxy
-`x` of the pool table (status, held state, flows, prerequisite satisfaction, try state) with the submit number and
-the outputs of its `task_states` / `task_outputs` row (no such row: dropped by the JOIN).  A task caught in job
-preparation comes back waiting, to be prepared again under the same submit number; outputs are reloaded only for
-running / failed / succeeded tasks; suicide prerequisites are not stored: they start afresh. -/
-def restoreProxy (g : Graph) (rows : List Row) (x : Proxy) : Option Proxy :=
-  match rows.find? fun r => r.isKey x.pt x.name with
-  | none => none
-  | some r =>
-    let prep := x.status == .preparing
-    let status := if prep then Status.waiting else x.status
-    let sn := if prep then r.submitNum - 1 else r.submitNum
+/-- clean restart from the database written at shutdown (`load_db_task_pool_for_restart`, `configure`) -/
+def restart (g : Graph) (s : State) : State :=
+  let restore (x : Proxy) : Proxy :=
+    let (status, sn) := if x.status == .preparing then (Status.waiting, x.submitNum - 1) else (x.status, x.submitNum)
     let keepOut := status == .running || status == .failed || status == .succeeded
     let final := status == .failed || status == .succeeded || status == .expired
-    let sui0 := match mkProxy g x.name x.pt with | some y => y.sui | none => []
-    some { x with status := status, submitNum := sn, done := (if keepOut then r.outs else []), sui := sui0,
-                  queued := false, runahead := !final, retryWait := false, live := false,
-                  upd := prep || final }
-
-/-- a new scheduler process started on the run directory: everything it knows comes from the committed database
-(`_load_pool_from_db`, `_set_workflow_params`, `configure`).  `launched` / `ncommit` are what the outside world saw
-of the current op and are kept for the observation. -/
-def startFrom (g : Graph) (s : State) : State :=
-  let d := s.cdb
+    { x with status := status, submitNum := sn, done := if keepOut then x.done else [],
+             queued := false, runahead := !final, retryWait := false, live := false,
+             upd := (x.status == .preparing) || final }
   -- stop point: DB `stopcp`, else flow.cylc, else the final point
-  let cfgStop : Option Int := match d.stopCp with | some p => some p | none => g.cfgStop
-  let pool := d.pool.filterMap (restoreProxy g d.rows)
+  let cfgStop : Option Int := match s.dbStopCp with | some p => some p | none => g.cfgStop
+  let pool := s.pool.map restore
   let wait := pool.isEmpty || (match cfgStop with
     | some sp => pool.all (fun x => x.pt > sp)
     | none => false)
   let s' : State :=
-    { pool := pool, cdb := d, absDone := d.abs,
-      tasksToHold := d.hold, holdPoint := d.holdCp, stopPoint := some (cfgStop.getD g.fcp),
-      restartWait := wait, paused := d.paused,
-      stopTask := d.stopTask, stopTaskFinished := false, schedUpd := true,
-      launched := s.launched, ncommit := s.ncommit }
-  -- `configure` re-applies the hold point after the pool is loaded ...
-  let s'' := match s'.holdPoint with
-    | some hp => setHoldPoint s' hp
-    | none => s'
-  -- ... and commits what start-up queued (this commit belongs to start-up, it is not counted)
-  let s3 := if g.poolAtStart then putTaskPool s'' else s''
-  { s3 with cdb := applyQ s3.cdb s3.q, q := {} }
-
-/-- clean restart: `shutdown` resumes a paused workflow, writes the task pool once more and commits; then a new
-scheduler starts from the database -/
-def restart (g : Graph) (s : State) : State :=
-  let s1 := if s.paused then { s with paused := false, q := { s.q with paused := some false } } else s
-  startFrom g (commit (putTaskPool s1))
-
-/-- the scheduler process dies here and now, then a new one is started: memory (pool, queued database operations,
-message queue, stop requests) is lost -/
-def crashRestart (g : Graph) (s : State) : State :=
-  { (startFrom g s) with crashed := true }
-
-/-- a main loop during which the process dies at its `k`-th commit boundary (if it gets that far) -/
-def loopCrash (g : Graph) (s : State) (k : Nat) : State :=
-  let s1 := mainLoop g { s with fuse := some k }
-  if s1.dead then crashRestart g s1 else { s1 with fuse := none }
-
-/-- `_manip_task_jobs_callback` hands a poll result to the proxy found under point / name / CURRENT submit number
-(proxies that were never submitted are not looked up) -/
-def pollMatches (s : State) (p : Int) (n : String) (sn : Nat) : Bool :=
-  match s.get? p n with
-  | some x => x.submitNum == sn && sn != 0
-  | none => false
-
-/-- the `task_pool` table as the harness reads it after a main loop -/
-def showDb (s : State) : State := if s.stop.isSome then s else { s with db := some s.cdb.pool }
+    { pool := pool, hist := s.hist, absDone := s.absDone,
+      tasksToHold := s.tasksToHold, holdPoint := s.holdPoint, stopPoint := some (cfgStop.getD g.fcp),
+      dbStopCp := s.dbStopCp, restartWait := wait,
+      stopTask := s.stopTask, stopTaskFinished := false, schedUpd := true }
+  -- `configure` re-applies the hold point after the pool is loaded
+  match s'.holdPoint with
+  | some hp => setHoldPoint s' hp
+  | none => s'
 
 def step (g : Graph) (s : State) (op : Op) : State :=
   let s := clearOp s
   match op with
-  | .loop => showDb (mainLoop g s)
+  | .loop => mainLoop g s
   | .subres p n ok sn =>
       (processMessage g 4 s p n .internal sn (if ok then "submitted" else "submit-failed")).1
   | .msg p n sn text => { s with queue := s.queue ++ [⟨p, n, sn, text⟩] }
@@ -994,21 +864,14 @@ def step (g : Graph) (s : State) (op : Op) : State :=
   | .releaseHoldPoint => releaseHoldPoint s
   | .stop mode => { s with stopMode := some mode }
   | .stopPoint p => setStopPoint s p
-  | .stopTask p n => { s with stopTask := some (p, n), stopTaskFinished := false,
-                              q := { s.q with stopTask := some (some (p, n)) } }
-  | .pause => if s.paused then s else { s with paused := true, q := { s.q with paused := some true } }
-  | .resume => if s.paused then { s with paused := false, q := { s.q with paused := some false } } else s
+  | .stopTask p n => { s with stopTask := some (p, n), stopTaskFinished := false }
+  | .pause => { s with paused := true }
+  | .resume => { s with paused := false }
   | .restart => restart g s
-  | .crash => crashRestart g s
-  | .loopCrash k => showDb (loopCrash g s k)
-  | .pollres p n sn text =>
-      if pollMatches s p n sn then (processMessage g 4 s p n .polled sn text).1 else s
 
-/-- start-up of a new run: `load_from_point`, then `configure` commits what was queued -/
 def init (g : Graph) : State :=
-  let s0 := loadFromPoint g
-  let s := if g.poolAtStart then putTaskPool s0 else s0
-  { s with cdb := applyQ s.cdb s.q, q := {} }
+  let s := loadFromPoint g
+  s
 
 /-- all states of a run: after start-up, then after each op -/
 def run (g : Graph) (ops : List Op) : List State :=
@@ -1016,4 +879,4 @@ def run (g : Graph) (ops : List Op) : List State :=
     let s' := step g acc.2 op
     (acc.1 ++ [s'], s')) ([init g], init g)).1
 
-end CylcModel.Sched3Crash
+end CylcModel.Sched3Fut
